@@ -112,7 +112,10 @@ def constOf : Ty → Option Val
   | .scalar _ v _ _ => if isNilVal v then none else some v
   | _ => none
 
-def isCref : Ty → Bool | .cref .. => true | _ => false
+/-- value of a constant reference (an enum member) -/
+def crefVal : Ty → Option Val | .cref _ _ v _ => some v | _ => none
+def isCref (t : Ty) : Bool := (crefVal t).isSome
+def isSlot : Ty → Bool | .slot .. => true | _ => false
 
 /-- fields `from_json` skips ("they're set in the object's constructor") -/
 def isConstField (f : Field) : Bool := isCref f.ty || (constOf f.ty).isSome
@@ -145,10 +148,10 @@ def scalarDefault (kind : String) (v : Val) : DRes PyVal :=
 
 /-- one attribute of `__init__`: `arg` is what `from_json` (or a default expression) passed for it -/
 def initFieldWith (dfl : Ty → DRes PyVal) (f : Field) (arg : Option PyVal) : DRes PyVal :=
-  match f.ty with
-  | .cref _ _ v _ => ofOpt "enum member literal" (valToPy v)
-  | .slot .. => .unsup "composable slot"
-  | _ =>
+  match crefVal f.ty with
+  | some v => ofOpt "enum member literal" (valToPy v)
+  | none =>
+    if isSlot f.ty then .unsup "composable slot" else
     match constOf f.ty with
     | some c => ofOpt "constant literal" (valToPy c)
     | none =>
